@@ -122,7 +122,16 @@ func checkC09(c *Ctx, w *World) {
 	// ---- C09.list
 	nw := 0
 	for _, a := range pl.ai.ByField["gcpBalancer.scRefList"] {
-		if !a.isWrite() || freshAt(a.Base, a.Instr) {
+		if a.isWrite() && freshAt(a.Base, a.Instr) {
+			// the constructor's initial list: its storage must belong to this balancer alone ("the pool's channels in creation
+			// order": a backing array shared with other balancers would let their appends overwrite these slots)
+			if st, isSt := a.Instr.(*ssa.Store); isSt {
+				shared := sharedSliceRoots(st.Val, map[ssa.Value]bool{})
+				c.check(len(shared) == 0, "C09.list", "initial scRefList in "+fname(a.Fn), p.ipos(st), "the list starts as storage allocated for this balancer (empty literal / make / nil)", "the round-robin list starts on storage shared with other balancers: "+strings.Join(shared, "; "))
+			}
+			continue
+		}
+		if !a.isWrite() {
 			continue
 		}
 		nw++
